@@ -15,6 +15,10 @@ from .types import (BOOL, INT, NULL, STR, TBag, TInt, TMap, TOpt, TRec, TRef, TS
 class BuiltinMixin:
     # ---------------------------------------------------------------- builtin functions
     def call_builtin(self, p: Path, name, args, kwargs, node):
+        if self.lenient and name in ("list", "tuple", "set", "frozenset", "dict", "enumerate", "zip", "reversed", "sorted", "iter",
+                                     "next", "sum", "max", "min", "str", "repr", "int", "float") \
+                and any(isinstance(a, VOpaque) for a in list(args) + list(kwargs.values())):
+            return [(p, VOpaque(f"{name}(unmodelled)"))]
         m = getattr(self, "bi_" + name, None)
         if m is None:
             raise Unsupported(f"builtin {name}")
@@ -162,6 +166,8 @@ class BuiltinMixin:
         raise Unsupported(f"isinstance({v!r}, {name})")
 
     def isinstance_extra(self, p, v, name):
+        if isinstance(v, VOpaque) and self.lenient:
+            return z3.Bool(fresh_name("opaque_isinstance"))
         return None
 
     def mro_names(self, cls):
@@ -722,6 +728,14 @@ class BuiltinMixin:
         r = self.setitem_extra(p, base, idx, v, node)
         if r is not None:
             return r
+        if isinstance(base, VOpaque) and self.lenient:
+            root = node
+            while isinstance(root, (ast.Attribute, ast.Subscript, ast.Call)):
+                root = root.value if not isinstance(root, ast.Call) else root.func
+            rootname = root.id if isinstance(root, ast.Name) else None
+            if rootname not in (getattr(p.frame.fn, "local_containers", ()) if p.frame.fn is not None else ()):
+                p.ghost["$ir_dirty"] = f"item store into {rootname} at {w}"
+            return [(p, NEXT)]
         raise Unsupported(f"item store on {base!r} at {w}")
 
     def setitem_extra(self, p, base, idx, v, node):
